@@ -352,6 +352,27 @@ fn operand_json<'tcx>(tcx: TyCtxt<'tcx>, owner: DefId, body: &Body<'tcx>, op: &O
     }
 }
 
+fn ty_kind<'tcx>(ty: Ty<'tcx>) -> &'static str {
+    match ty.kind() {
+        ty::Bool => "bool",
+        ty::Char => "char",
+        ty::Int(_) => "int",
+        ty::Uint(_) => "uint",
+        ty::Float(_) => "float",
+        ty::Adt(..) => "adt",
+        ty::Ref(_, _, m) => if m.is_mut() { "refmut" } else { "ref" },
+        ty::RawPtr(..) => "ptr",
+        ty::Slice(_) => "slice",
+        ty::Array(..) => "array",
+        ty::Str => "str",
+        ty::Tuple(t) => if t.is_empty() { "unit" } else { "tuple" },
+        ty::Closure(..) => "closure",
+        ty::FnDef(..) => "fndef",
+        ty::Never => "never",
+        _ => "other",
+    }
+}
+
 fn adt_of<'tcx>(tcx: TyCtxt<'tcx>, ty: Ty<'tcx>) -> J {
     let mut t = ty;
     loop {
@@ -398,7 +419,10 @@ fn rvalue_json<'tcx>(tcx: TyCtxt<'tcx>, owner: DefId, body: &Body<'tcx>, rv: &Rv
             ("b", op(b)),
         ]),
         Rvalue::UnaryOp(uop, a) => J::Obj(vec![("k", s("un")), ("op", s(format!("{:?}", uop))), ("a", op(a))]),
-        Rvalue::Discriminant(p) => J::Obj(vec![("k", s("discr")), ("place", place_json(tcx, body, p))]),
+        Rvalue::Discriminant(p) => {
+            let pty = p.ty(&body.local_decls, tcx).ty;
+            J::Obj(vec![("k", s("discr")), ("place", place_json(tcx, body, p)), ("adt", adt_of(tcx, pty)), ("ty", s(ty_str(pty)))])
+        }
         Rvalue::Aggregate(box kind, fields) => {
             let fs: Vec<J> = fields.iter().map(|f| op(f)).collect();
             match kind {
@@ -562,6 +586,7 @@ fn body_json<'tcx>(tcx: TyCtxt<'tcx>, owner: DefId, body: &Body<'tcx>, promoted:
             ("id", J::Int(l.as_usize() as i128)),
             ("ty", s(ty_str(decl.ty))),
             ("adt", adt_of(tcx, decl.ty)),
+            ("tk", s(ty_kind(decl.ty))),
             ("mut", J::Bool(decl.mutability.is_mut())),
         ]));
     }
@@ -704,6 +729,8 @@ fn export_crate<'tcx>(tcx: TyCtxt<'tcx>) -> J {
                         fields.push(J::Obj(vec![
                             ("name", s(f.name.to_string())),
                             ("ty", s(ty_str(fty))),
+                            ("adt", adt_of(tcx, fty)),
+                            ("tk", s(ty_kind(fty))),
                             ("vis", s(vis_str(tcx, f.did))),
                         ]));
                     }
